@@ -1,6 +1,8 @@
 (** C19 — tables fit the terminal and show all the data. *)
 From Coq Require Import List ZArith NArith Bool Lia Arith.
 From AG Require Import Str F64 Value Json Expr Ops Pipeline Display Layout_proofs Record_proofs.
+From AG Require Generated.
+From Coq Require Strings.String.
 Import ListNotations.
 Open Scope nat_scope.
 
@@ -23,6 +25,12 @@ Theorem C19_resize_no_fault : forall cols w i remaining,
   resize_loop_chk cols w i (i + length cols) remaining = Some (resize_loop cols w i (i + length cols) remaining).
 Proof. exact resize_loop_no_fault. Qed.
 Print Assumptions C19_resize_no_fault.
+(** the divisor the model uses is the divisor the source uses (re-read from resize_widths_to_fit on every run) *)
+Module DivisorPin.
+Import Strings.String.
+Example C19_resize_divisor_is_the_column_count : Generated.resize_divisor = "ordering.len()"%string.
+Proof. reflexivity. Qed.
+End DivisorPin.
 
 (** a cell is exactly as wide as its column; it shows the whole text iff it fits, else a prefix and an ellipsis *)
 Theorem C19_cell_exact : forall inp limit,
